@@ -272,6 +272,18 @@ Theorem C19_sym_is_gen : forall refs tr, check_safe_trace_sym refs tr = true -> 
 Proof. exact sym_is_gen. Qed.
 Print Assumptions C19_sym_is_gen.
 
+(* repo fix 59b66a8: references that are not named part.<i>.parquet are ignored when the next part number is chosen.  FRESH NAMES
+   for ANY list of referenced paths: the file of row group i of an append (any newline-free directory) is none of them; and on
+   datasets whose files are all named part.<i>.parquet this numbering is the one of the models above *)
+Theorem C19_fresh_names_any_refs : forall refs d i, good_dir d = true ->
+  ~ In (join d (part_name (find_max_part_skip refs + i))) refs.
+Proof. exact fresh_names_skip. Qed.
+Print Assumptions C19_fresh_names_any_refs.
+
+Theorem C19_find_max_part_skip_agrees : forall refs off, find_max_part refs = Some off -> find_max_part_skip refs = off.
+Proof. exact skip_agrees. Qed.
+Print Assumptions C19_find_max_part_skip_agrees.
+
 Definition ex_tmp : path := md_name ++ [46; 116; 109; 112]%N.        (* "_metadata.tmp" *)
 Example C19_nonvacuous_gen :
   (* today's trace, the either-order trace and the temporary-file trace are accepted; deleting or overwriting a referenced
